@@ -5,3 +5,4 @@ open Emboss.View
 #print axioms C20_failed_copy_no_change
 #print axioms C20_copy_post
 #print axioms C20_copy_overlap
+#print axioms C20_copy_dest_ok_partial
